@@ -79,6 +79,7 @@ class RecipeRun:
         self.had_fill = False
         self.noise_rel = F(0)   # bake applies fill_to twice: relative noise this can induce downstream (conditioning of later ratios)
         self.peak = {}          # substance -> largest amount seen in any vessel of the eager reference
+        self.abs_noise = {}     # substance -> absolute allowance from ill-conditioned steps downstream of a doubled fill_to
         self.panel_before = None
 
     # ------------------------------------------------------------------ plumbing
@@ -489,6 +490,10 @@ class RecipeRun:
                 self.eager_ok = False
                 self.eager_fail_step = len(self.steps)
                 step['eager_exc'] = type(e).__name__
+                # was the refusal decided beyond rounding?  (a round dose into a round well sits exactly on the capacity
+                # boundary; bake, whose state may differ by rounding residue after its doubled fill_to, may decide otherwise)
+                plan = self.model_plan(c, cur) if k in ('transfer', 'fill_to') else None
+                step['eager_refusal_sure'] = plan is None or plan.get('status') == 'must_refuse'
         self.steps.append(step)
         self.snap.append(self.snapshot_models())
 
@@ -500,6 +505,29 @@ class RecipeRun:
         k = c['c']
         if k == 'fill_to':
             self.had_fill = True
+            return
+        if k == 'dilute' and (self.had_fill or self.noise_rel > 0):
+            # dilute adds x = (solute/c - total)/k of solvent: a difference of two nearly equal numbers when the target is
+            # close to the current concentration.  A relative deviation eps of the vessel's contents (left by a doubled
+            # fill_to upstream) moves x by about eps * (solute/c + total)/k, whatever x itself is.
+            o = cur.get(c['tgt'][0])
+            if o is None or not isinstance(o, self.rep.Container):
+                return
+            m = self.model_of(o)
+            try:
+                cv, num, den = M.parse_concentration(c['conc'], W.model.wv)
+                top = W.msubs[c['solute']].per_amount(num) * m.contents.get(c['solute'], F(0))
+                bottom = W.model.total(m, den)
+                kk = W.msubs[c['solvent']].per_amount(den)
+            except Exception:
+                return
+            if cv <= 0 or kk <= 0:
+                return
+            eps = self.noise_rel
+            for n, a in m.contents.items():
+                if a > 0:
+                    eps = max(eps, min(F(1), (self.fill_slack(m, n) + self.abs_noise.get(n, F(0))) / a))
+            self.abs_noise[c['solvent']] = self.abs_noise.get(c['solvent'], F(0)) + 2 * eps * (top / cv + bottom) / kk
             return
         if k == 'transfer':
             src, q = c['src'], c['q']
@@ -514,6 +542,14 @@ class RecipeRun:
             value, unit = M.parse_quantity(q)
         except Exception:
             return
+        if k == 'transfer':
+            # both sides: distance of the request from the source's content and from every destination's capacity
+            plan = self.model_plan(c, cur)
+            if plan is not None:
+                if plan.get('status') == 'dont_care':
+                    self.near_boundary_transfer = True
+                if plan.get('margin_rel') is not None:
+                    self.min_margin_rel = min(self.min_margin_rel, F(plan['margin_rel']))
         m = self.model_of(o)
         if isinstance(m, M.MPlate):
             cells = self.cells_of(src, cur) or []
@@ -532,6 +568,58 @@ class RecipeRun:
             self.min_margin_rel = min(self.min_margin_rel, abs(T - value) / max(T, abs(value)))
         if self.had_fill:
             self.noise_rel += min(worst, F(1))
+
+    def operand_of(self, ref, cur):
+        from .bench import Operand
+        o = cur.get(ref[0])
+        if o is None:
+            return None
+        if isinstance(o, self.rep.Container):
+            return Operand(ref[0], None, 'container', o, o)
+        sel = ref[1] if len(ref) > 1 and ref[1] is not None else {'k': 'all'}
+        cells, shape = M.select(sel, (o.n_rows, o.n_columns))
+        return Operand(ref[0], None, 'plate', o, o, sel, cells, shape, whole=sel.get('k') == 'all')
+
+    def model_plan(self, c, cur):
+        """The exact model's verdict on a transfer / fill_to step on the current eager state:
+        {'status': must_accept | dont_care | must_refuse, 'margin_rel': ...} or None if the model does not predict it."""
+        W, b = self.W, self.bench
+        try:
+            if c['c'] == 'transfer':
+                s, d = self.operand_of(c['src'], cur), self.operand_of(c['dst'], cur)
+                if s is None or d is None:
+                    return None
+                plan = b.model_transfer(s, d, c['q'], b.pairing(s, d), s.base is d.base)
+                return plan if plan.get('status') in ('must_accept', 'dont_care', 'must_refuse') else None
+            if c['c'] == 'fill_to':
+                t = self.operand_of(c['tgt'], cur)
+                if t is None:
+                    return None
+                value, unit = M.parse_quantity(c['q'])
+                m = self.model_of(t.base)
+                status = 'must_accept'
+                for cell in ([None] if t.kind == 'container' else t.cells):
+                    pre = m if cell is None else m.well(cell)
+                    try:
+                        nv, info = W.model.fill_to(pre, c['solvent'], c['q'])
+                    except M.Refuse as r:
+                        band = b.band_fill(pre, unit, c['solvent'])
+                        if r.reason == 'exceeds capacity':
+                            band = b.band_cap(pre) + b.band_fill(pre, 'L', c['solvent'])
+                        if r.margin is not None and r.reason in ('below current quantity', 'exceeds capacity') and -r.margin < 4 * band:
+                            status = 'dont_care'
+                            continue
+                        if r.reason == 'solvent cannot be measured in that unit':
+                            status = 'dont_care'
+                            continue
+                        return {'status': 'must_refuse'}
+                    if info['margin_low'] < 4 * b.band_fill(pre, unit, c['solvent']) or \
+                            (info['margin_cap'] is not None and info['margin_cap'] < 4 * (b.band_cap(nv) + b.band_fill(pre, 'L', c['solvent']))):
+                        status = 'dont_care'
+                return {'status': status}
+        except (M.ModelError, M.Refuse, KeyError, ValueError, ZeroDivisionError):
+            return None
+        return None
 
     def update_peaks(self, models):
         for mo in models.values():
@@ -557,7 +645,7 @@ class RecipeRun:
 
     def noise_amt(self, n):
         """Absolute allowance for amounts of substance n downstream of a doubly applied fill_to."""
-        return self.noise_rel * self.peak.get(n, F(0)) + self.peak.get(n, F(0)) * F(1, 10 ** 13)
+        return self.noise_rel * self.peak.get(n, F(0)) + self.peak.get(n, F(0)) * F(1, 10 ** 13) + self.abs_noise.get(n, F(0))
 
     def discarded(self, c, cur, upd):
         """Amounts removed by a remove step, from the eager reference (model units), summed over wells."""
@@ -642,6 +730,9 @@ class RecipeRun:
             pred, why = 'raise', 'already baked'
         elif not self.eager_ok:
             pred, why = 'raise', f'step {self.eager_fail_step} infeasible'
+            if not self.steps[self.eager_fail_step].get('eager_refusal_sure', True):
+                pred, why = 'unspecified', f'step {self.eager_fail_step} refused within the rounding band of a feasibility boundary'
+                self.stats['bake_after_boundary_refusal_unjudged'] += 1
         elif lc.unused():
             pred, why = 'raise', f'declared but unused: {lc.unused()}'
         elif lc.late_refusal:
@@ -691,9 +782,14 @@ class RecipeRun:
             else:
                 self.stats['probe:baked_ok'] += 1
                 self.check_stages_registered()
-                self.check_bake_result(known)
-                from . import tracking
-                tracking.check_tracking(self)
+                if self.eager_ok:
+                    self.check_bake_result(known)
+                    from . import tracking
+                    tracking.check_tracking(self)
+                else:
+                    # bake accepted a program in which the eager reference stopped (reported above, or a boundary case):
+                    # there is no reference state to compare with
+                    self.stats['bake_without_reference_uncompared'] += 1
                 self.panel_before = self.frozen_panel()
         elif kind != 'ok' and not lc.locked:
             if lc.open_stage is not None:
@@ -827,6 +923,11 @@ class RecipeRun:
             k = ms.per_amount(unit)
             if k > 0:
                 worst = max(worst, 2 * W.slack_total(me, unit) / k)
+                if self.had_fill:
+                    # the second application of a fill_to compares a float sum with the target: what it may add is float
+                    # noise of the vessel's *total* in the fill unit, expressed in solvent amount (large next to a minor
+                    # component's own rounding step when the vessel is big)
+                    worst = max(worst, 2 * W.slack_total(me, unit) / k + F(4, 10 ** 15) * W.model.total(me, unit) / k)
         return worst
 
     def _cdiff(self, a, e):
